@@ -32,6 +32,13 @@ def run(tier):
         c.sc, c.profile, c.mode, c.seed = gen.gen_tb_refused_ownership(seed * 1000 + k), "tb_refused_ownership", ("loop" if k % 2 else "dispatch"), seed * 1000 + k
         cases.append(c)
 
+    # re-configurations refused for their arguments (rate above 10^9) in between: the old limit stays in force
+    for i in range(80 if tier == "quick" else 1500):
+        s = seed * 1000003 + 700000 + i
+        c = cc.Case()
+        c.sc, c.profile, c.mode, c.seed = gen.gen_tokenbucket(s, refused=True), "tokenbucket_refused_reconf", ("loop" if i % 2 else "dispatch"), s
+        cases.append(c)
+
     def oracle(case):
         v = model_tb.check_c18(case, stats)
         v += [("C18/timer-registry:" + k.split("/", 1)[1], d) for k, d in model_registry.check_c09(case, None) if "count-mismatch" in k]
